@@ -1,0 +1,32 @@
+//go:build verif
+
+// Contracts for package cmds (compiled only with -tags=verif; checked by /verif/bin/govc). Property C20 (owners).
+package cmds
+
+// owners: "exactly the targets whose resolved inputs contain f". ownsAny(t, args): some input of t, made absolute against
+// the workspace root, equals one of the (already absolute) file arguments. The closure is the Run function of OwnersCmd.
+//@ func init$10$1(absInputPath) (r)
+//@   pure
+//@   ensures [iff_listed] r <==> inStrs(args, absInputPath)
+//@   reveal inStrs
+//@ loop #1
+//@   invariant [none_so_far] forall k int :: {args[k]} 0 <= k && k <= rangeindex ==> args[k] != absInputPath
+
+//@ func init$10(cmd, args) ()
+//@   reveal inStrs
+//@   reveal inTargets
+//@   before_call PrintSorted#1 [owners_exact] (forall i int :: {targetsOf(nodes)[i]} 0 <= i && i < len(targetsOf(nodes)) ==>
+//@        (inTargets(matchingTargets, targetsOf(nodes)[i]) <==> (exists j int :: 0 <= j && j < len(targetsOf(nodes)[i].Inputs) && inStrs(args, pathJoin(config.Global.WorkspaceRoot, pathJoin(targetsOf(nodes)[i].Label.Package, targetsOf(nodes)[i].Inputs[j])))))) &&
+//@        (forall x *model.Target :: {inTargets(matchingTargets, x)} inTargets(matchingTargets, x) ==> inTargets(targetsOf(nodes), x)) &&
+//@        (forall q int :: {matchingLabels[q]} 0 <= q && q < len(matchingTargets) ==> len(matchingLabels) == len(matchingTargets) && matchingLabels[q] == matchingTargets[q].Label)
+//@ loop #1
+//@   invariant [same_length] len(args) == len(ranged())
+//@ loop #2
+//@   invariant [same_list] ranged() == targetsOf(nodes)
+//@   invariant [decided_so_far] (forall i int :: {targetsOf(nodes)[i]} 0 <= i && i <= rangeindex ==>
+//@        (inTargets(matchingTargets, targetsOf(nodes)[i]) <==> (exists j int :: 0 <= j && j < len(targetsOf(nodes)[i].Inputs) && inStrs(args, pathJoin(config.Global.WorkspaceRoot, pathJoin(targetsOf(nodes)[i].Label.Package, targetsOf(nodes)[i].Inputs[j])))))) &&
+//@        (forall x *model.Target :: {inTargets(matchingTargets, x)} inTargets(matchingTargets, x) ==> (exists i int :: 0 <= i && i <= rangeindex && targetsOf(nodes)[i] == x))
+//@ loop #3
+//@   invariant [no_input_matched_yet] forall j int :: {target.Inputs[j]} 0 <= j && j <= rangeindex ==> !inStrs(args, pathJoin(config.Global.WorkspaceRoot, pathJoin(target.Label.Package, target.Inputs[j])))
+//@ loop #4
+//@   invariant [labels_so_far] len(matchingLabels) == rangeindex + 1 && (forall q int :: {matchingLabels[q]} 0 <= q && q <= rangeindex ==> matchingLabels[q] == matchingTargets[q].Label)
